@@ -39,8 +39,77 @@ def nested_scope_cases():
     return out
 
 
+def file_store_cases():
+    """deterministic: a persistent (file) cassette, operations of two classes; one or two of them captured a value the
+    serializer refuses - which value x where it was captured x where in the history (first / in the middle / last / twice)"""
+    out, k = [], 0
+    for bad in ("unser", "unser-nested", "deep"):
+        for how in ("input", "output", "data", "result"):
+            k += 1
+            good = lambda cls: dict(cls=cls, value="good", how=how)       # noqa: E731
+            layouts = [[good("OpA"), dict(cls="OpA", value=bad, how=how), good("OpA"), good("OpB")],
+                       [dict(cls="OpA", value=bad, how=how), good("OpA"), good("OpB"), dict(cls="OpB", value=bad, how=how), good("OpB")],
+                       [good("OpB"), good("OpA"), dict(cls="OpA", value=bad, how=how)]]
+            for steps in (layouts if bad != "deep" else layouts[k % 3:k % 3 + 1]):
+                out.append(dict(kind="file_store", steps=steps))
+    return out
+
+
+def direct_file_store(case, obs):
+    """C05: whole or not at all, read off the store itself - every created recording is either fetched whole (its save went
+    through) or absent (the save failed / it was aborted), and the category lookup and replay of the whole ones work"""
+    if "driver_exception" in obs:
+        return [("driver", obs["driver_exception"] + obs.get("trace", "")[-400:])]
+    fails = []
+    fate = {}
+    cats = {}
+    for i, (st, ob) in enumerate(zip(case["steps"], obs["steps"])):
+        w = "file cassette, operation %d of %s (%s value captured as %s)" % (i, [(s["cls"], s["value"]) for s in case["steps"]],
+                                                                              st["value"], st["how"])
+        n = {}
+        for c, o in ob["cass"]:
+            if c == "create":
+                cats[o] = st["cls"]
+                n.setdefault(o, [])
+            else:
+                n.setdefault(o, []).append(c)
+        for o, calls in n.items():
+            if len(calls) != 1:
+                fails.append(("not-finalised-exactly-once", "%s: recording %d was handed back to the cassette %s" % (w, o, calls)))
+            fate[o] = "whole" if calls == ["save"] else "absent"
+        if ob["outcome"] != "val":
+            fails.append(("operation-affected", "%s: the operation itself ended with %s" % (w, ob["outcome"])))
+        for o, got in enumerate(ob["stored"]):
+            if got != fate.get(o, "absent"):
+                fails.append(("stored-neither-whole-nor-absent" if got.startswith("broken") else "stored-state-wrong",
+                              "%s: afterwards recording %d (save %s) is '%s' in the store, expected '%s'" %
+                              (w, o, "went through" if fate.get(o) == "whole" else "failed", got, fate.get(o, "absent"))))
+        for cat in sorted(ob["lookup"]):
+            want = sorted(o for o, f in fate.items() if f == "whole" and cats.get(o) == cat)
+            if ob["lookup"][cat] != want:
+                fails.append(("saved-recordings-not-listed", "%s: afterwards the lookup of category %s gives %s, the recordings "
+                              "saved whole are %s" % (w, cat, ob["lookup"][cat], want)))
+        for o, r in ob["replays"]:
+            if r != "same-outputs":
+                fails.append(("saved-recording-does-not-replay", "%s: afterwards replaying recording %d on the unchanged "
+                              "operation gives %s" % (w, o, r)))
+        if ob["files"] != sum(1 for f in fate.values() if f == "whole"):
+            fails.append(("stray-files-in-store", "%s: the cassette directory holds %d files, %d recordings were saved" %
+                          (w, ob["files"], sum(1 for f in fate.values() if f == "whole"))))
+    return fails
+
+
+def features_file_store(case):
+    fs = {"stream:file-store", "cassette:file"}
+    for st in case["steps"]:
+        if st["value"] != "good":
+            fs.add("unencodable:%s-captured-as-%s" % (st["value"], st["how"]))
+    fs.add("unencodable-operations:%d-of-%d" % (sum(1 for s in case["steps"] if s["value"] != "good"), len(case["steps"])))
+    return fs
+
+
 def is_rec2(case):
-    return case.get("kind") in ("nested_scope",)
+    return case.get("kind") in ("nested_scope", "file_store")
 
 
 def where(case):
@@ -120,6 +189,8 @@ def direct_metadata(case, obs):
 
 
 def features(case):
+    if case["kind"] == "file_store":
+        return features_file_store(case)
     fs = {"stream:nested-scope", "cassette:" + case["cassette"], "outer-ends-by:" + case["term"],
           "rate=%s/%s" % tuple(case["outer"]["rate"])}
     for st in case["steps"]:
